@@ -69,6 +69,10 @@ func init() {
 				if got := translate(cs.S, t); got != cs.P {
 					return bad("table %d: Translate(%q) = %q, specification %q", cs.Id, cs.S, got, cs.P)
 				}
+				// the same genetic code laid out in another order (amino acids and codons permuted) reads the same
+				if got := translate(cs.S, shuffleTable(t, int64(len(cs.S)*31+cs.Id))); got != cs.P {
+					return bad("table %d with its amino acids and codons listed in another order: Translate(%q) = %q, specification %q", cs.Id, cs.S, got, cs.P)
+				}
 			}
 			return ok(true)
 		},
@@ -83,6 +87,9 @@ func init() {
 					n := 1 + rng.Intn(3000)
 					if rng.Intn(2) == 0 {
 						n = 1 + rng.Intn(300)
+					}
+					if id == tableIds[r%len(tableIds)] { // one gene-cluster-sized input per round: beyond 2^16 letters
+						n = 65530 + rng.Intn(140000)
 					}
 					b := make([]byte, n)
 					for i := range b {
